@@ -108,6 +108,10 @@ def run_unit(ctx, unit):
     st = ctx.stats
     data, exp = unit["input"], unit["expected"]
     c1 = core.Case([], data, rsched=unit.get("rsched"), rintr=unit.get("rintr"))
+    if unit.get("rintr") or (unit.get("rsched") and len(unit["rsched"]) > 2):
+        # the sink, too, may take less than it is offered (short writes) and answer Interrupted now and then
+        c1.wshort = [1, 3, 2, 17]
+        c1.wintr = [1, 4]
     c2 = core.Case(["--on-error", "stderr"], data)
     c3 = core.Case(["--on-error", "panic"], data)
     o1, o2, o3 = ctx.drv.run_many([c1, c2, c3])
